@@ -193,6 +193,52 @@ def run(ctx):
                 is_len = expr_mentions(dflt, lambda y: y[0] == "call" and y[1] and y[1]["path"].endswith("::count"))
                 ctx.check((dflt[0] == "const" and const_value(dflt[1]) == 0) or is_len, "K5.clamp-fallback", "%s falls back to 0 or the string length (%s, %s)" % (recv[1]["path"].rsplit("::", 1)[1], s.where(), cfg),
                           "when %s fails substr falls back to %s instead of clamping to the string (0 or its length)" % (recv[1]["path"].rsplit("::", 1)[1], show_expr(dflt)), where=s.where(), fn=s.body.key, nontrivial=True)
+        # a positive length counts characters from the start *inside the string*: where the length is added to the start,
+        # the start has already been clamped to ≥ 0 (an unsigned quantity, a cast of one, max(0, ·) / clamp(0, ·), or a
+        # signed one under a dominating `>= 0` test).  Adding the length to a start that may lie before the string and
+        # clamping afterwards ends the slice too early: substr("abcde", -10, 3) must be "abc" (seeded C16-N).
+        def reads_operand(e, n):
+            return expr_mentions(e, lambda z: z[0] == "call" and z[1] and ((z[1]["path"].endswith("Index<I>>::index") and len(z[2]) == 2 and strip_refs(z[2][1])[0] == "const" and const_value(strip_refs(z[2][1])[1]) == n)
+                                                                      or (z[1]["path"].endswith("::get") and len(z[2]) == 2 and strip_refs(z[2][1])[0] == "const" and const_value(strip_refs(z[2][1])[1]) == n)))
+
+        def non_negative(xb, op, e):
+            ty = xb.local_ty(op["place"]["local"]) if op.get("k") in ("Copy", "Move") and not op["place"]["proj"] else ""
+            if re.match(r"^u(8|16|32|64|128|size)$", ty or ""):
+                return True
+            x = strip_refs(e)
+            while x[0] == "cast" and len(x) > 2:
+                src_ty = x[1].get("from") if isinstance(x[1], dict) else None
+                if src_ty and re.match(r"^u(8|16|32|64|128|size)$", src_ty):
+                    return True
+                x = strip_refs(x[-1]) if isinstance(x[-1], tuple) else x
+                break
+            if x[0] == "call" and x[1] and re.search(r"::(max|clamp)$", x[1]["path"]):
+                return True
+            return None if x[0] in ("phi", "arg", "carg", "upvar") else False
+
+        adds = []
+        for xb in su.bodies:
+            for bi, t in xb.calls():
+                p_ = callee_path(t) or ""
+                if re.search(r"::(checked_add|saturating_add|wrapping_add|overflowing_add|strict_add|saturating_add_signed|checked_add_signed)$", p_) and len(t["args"]) == 2:
+                    adds.append((xb, bi, t["args"][0], t["args"][1], p_.rsplit("::", 1)[1]))
+            for bi, si, st in xb.stmts():
+                if st["k"] == "Assign" and st["rv"]["k"] == "BinaryOp" and st["rv"]["op"].startswith("Add"):
+                    adds.append((xb, bi, st["rv"]["a"], st["rv"]["b"], st["rv"]["op"]))
+        n_sl = 0
+        for xb, bi, a, b_, what in adds:
+            ea, eb = xb.xtrace(a), xb.xtrace(b_)
+            for (es, ops, el) in ((ea, a, eb), (eb, b_, ea)):
+                if reads_operand(es, 1) and reads_operand(el, 2) and not reads_operand(el, 1):
+                    n_sl += 1
+                    nn = non_negative(xb, ops, es)
+                    key_sl = "substr: the length is added to a start already clamped to the string (%s, %s)" % (what, cfg)
+                    if nn is None:
+                        ctx.unread("K5.limit-from-clamped-start", key_sl, "the start operand of the addition is %s: whether it can be negative is not read" % show_expr(es)[:100], where=xb.where(bi), fn=xb.key)
+                    else:
+                        ctx.check(nn, "K5.limit-from-clamped-start", key_sl, "substr adds the length to the start offset %s before clamping it into the string: with a start before the string the slice ends too early" % show_expr(es)[:120],
+                                  where=xb.where(bi), fn=xb.key, nontrivial=True)
+        ctx.count("start+length additions in substr (%s)" % cfg, n_sl)
         ints = [s for s in su.calls_path(r"^serde_json::Number::as_i64$")]
         ctx.check(len(ints) >= 2, "K2.integer-operands", "start and length are read with as_i64 (%s)" % cfg, "%d as_i64 reads" % len(ints), where=sb.where(), fn=sb.key)
 
